@@ -50,9 +50,10 @@ theorem C02_torn_write {s : State} (h : Good s) (es : Log) (k : Key) (t : Int) :
 theorem C02_compaction_crash {s : State} (h : Good s) (i j : Nat) (pt : CPoint) (n : Nat) (k : Key) (t : Int) :
     (step s (.compactCrash i j pt n)).1.abs k t = s.abs k t := by
   simp only [step]
+  apply abs_openWith_same h.inv h.wal
+  intro k t
   by_cases hv : validGroup s.files i j = true
-  · simp only [hv, if_true]
-    exact abs_openWith_same h.inv h.wal _ (get_compactCrashFiles _ _ _ (validGroup_le hv) _ _) k t
+  · simp only [hv, if_true]; exact get_compactCrashFiles _ _ _ (validGroup_le hv) _ _ k t
   · simp [hv]
 
 /-- the reopened shard satisfies the engine invariants again: further operations are covered -/
@@ -189,19 +190,15 @@ theorem step_J {s : State} {st : St} (hj : J s st) (op : Op) (hop : inScope' op 
   | crash tear =>
     exact ⟨_, J_crash hj tear _, by simp only [Spec.C02.checkFrom, step, if_true]; rfl⟩
   | compactCrash i j pt n =>
-    by_cases hv : validGroup s.files i j = true
-    · have hstep : step s (.compactCrash i j pt n) =
-          (openWith s (compactCrashFiles s.files i j pt n) s.wal, .ok) := by simp [step, hv]
-      rw [hstep]
-      exact ⟨⟨st.worlds, none, closeWin st.win⟩,
-        hquiet (good_deleteCrash hj.good _)
-          (fun k t => abs_openWith_same hj.good.inv hj.good.wal _
-            (get_compactCrashFiles _ _ _ (validGroup_le hv) _ _) k t) rfl _ _,
-        by simp only [Spec.C02.checkFrom, if_true]⟩
-    · have hstep : step s (.compactCrash i j pt n) = (s.touch, .badGroup) := by simp [step, hv]
-      rw [hstep]
-      exact ⟨⟨st.worlds, none, st.win⟩, hquiet (good_touch hj.good) (fun _ _ => rfl) rfl _ _,
-        by simp only [Spec.C02.checkFrom, reduceCtorEq, if_false, if_true]⟩
+    refine ⟨⟨st.worlds, none, closeWin st.win⟩, ?_, by simp only [Spec.C02.checkFrom, step, if_true]⟩
+    have hget : ∀ k t, Log.get (filesLog (if validGroup s.files i j then compactCrashFiles s.files i j pt n
+        else s.files)) k t = Log.get (filesLog s.files) k t := by
+      intro k t
+      by_cases hv : validGroup s.files i j = true
+      · simp only [hv, if_true]; exact get_compactCrashFiles _ _ _ (validGroup_le hv) _ _ k t
+      · simp [hv]
+    exact hquiet (good_deleteCrash hj.good _)
+      (fun k t => abs_openWith_same hj.good.inv hj.good.wal _ hget k t) rfl _ _
   | deleteCrash ss lo hi =>
     by_cases hb : commitLocked s.phase = true
     · have hstep : step s (.deleteCrash ss lo hi) = (s.touch, .blocked) := by simp [step, hb]
